@@ -3,6 +3,8 @@ import Driver.PivotEng
 import Driver.FactorEng
 import Driver.SchedEng
 import Driver.FixupEng
+import Driver.ArgCheck
+import Driver.Equil
 
 def readAll (h : IO.FS.Stream) : IO String := do
   let mut acc := ""
@@ -18,6 +20,8 @@ def main (args : List String) : IO UInt32 := do
   | ["lucheck"] => Drv.lucheckMain (← readAll stdin)
   | ["pivot"] => Drv.pivotMain (← readAll stdin)
   | ["factor"] => Drv.factorMain (← readAll stdin)
+  | ["equil"] => Drv.equilMain (← readAll stdin)
+  | ["argcheck"] => Drv.argcheckMain (← readAll stdin)
   | ["fixup"] => Drv.fixupMain (← readAll stdin)
   | ["schedtrace"] => Drv.schedTraceMain (← readAll stdin)
   | ["schedexplore"] => Drv.schedExploreMain (← readAll stdin)
